@@ -47,3 +47,5 @@ func copyLoop(dst io.Writer, src io.Reader) (int64, error) {
 type discard struct{}
 
 func (discard) Write(p []byte) (int, error) { return len(p), nil }
+
+func ioEOF() error { return io.EOF }
